@@ -942,7 +942,7 @@ struct Lower {
       if (X->getInit()) pre += st(X->getInit(), ind + 1);
       if (auto* CV = X->getConditionVariable()) {
         pre += std::string((ind+1)*2, ' ') + declare(CV->getType(), vn(CV)) + " = " + ex(CV->getInit()) + ";\n";
-        cond = vn(CV);
+        cond = ex(X->getCond());        // the contextual conversion of the condition variable to bool (may be a user-defined operator bool)
       } else cond = ex(X->getCond());
       r = I + "{\n" + pre + std::string((ind+1)*2,' ') + "if (" + cond + ")\n" + st(X->getThen(), ind + 2);
       if (X->getElse()) r += std::string((ind+1)*2,' ') + "else\n" + st(X->getElse(), ind + 2);
